@@ -202,4 +202,65 @@ pub fn hcalc_decomp_small(s: &mut Src) -> R {
     Ok(())
 }
 
-crate::harness_table!(HCALC: hcalc_small, hcalc_schur_small, hcalc_triang_small, hcalc_reducer_small, hcalc_decomp_small);
+// C07 on complexes of arbitrary small shape (BOUNDED, sampled): a three-term complex C2 --d1--> C1 --d2--> C0 over BigInt built in normal form
+// (d1 = diag(k_1..k_s) padded, d2 = diag(e_1..e_r) on the last coordinates) and scrambled by random unimodular changes of basis of C2, C1, C0.
+// Expected H_1: free rank n1 - s - r, torsion = the non-unit invariant factors of diag(k).  Checked: rank, torsion up to sign, p q = I,
+// all generators are cycles, boundaries have zero free coordinates and torsion coordinates divisible by the orders.
+pub fn hcalc_scrambled(s: &mut Src) -> R {
+    use num_bigint::BigInt;
+    use num_traits::{Zero, One, Signed};
+    let (sd, f, r) = (s.small(0, 3) as usize, s.small(0, 2) as usize, s.small(0, 2) as usize);
+    let (x2, x0) = (s.small(0, 1) as usize, s.small(0, 1) as usize);      // extra zero columns of d1 / zero rows of d2
+    let ks: Vec<i64> = (0..3).map(|_| s.small(1, 6)).collect();
+    let es: Vec<i64> = (0..2).map(|_| s.small(1, 3)).collect();
+    let mut ops: Vec<(usize, usize, usize, i64)> = vec![];
+    for _ in 0..9 { ops.push((s.small(0, 2) as usize, s.small(0, 5) as usize, s.small(0, 5) as usize, s.small(-2, 2))); }
+    reach!();
+    let (n2, n1, n0) = (sd + x2, sd + f + r, r + x0);
+    let bi = |x: i64| BigInt::from(x);
+    type M = Vec<Vec<BigInt>>;
+    let zeros = |a: usize, b: usize| -> M { vec![vec![BigInt::zero(); b]; a] };
+    let ident = |a: usize| -> M { let mut m = zeros(a, a); for i in 0..a { m[i][i] = BigInt::one(); } m };
+    let mul = |x: &M, y: &M, a: usize, b: usize, c: usize| -> M { let mut z = zeros(a, c); for i in 0..a { for j in 0..c { for k in 0..b { z[i][j] = &z[i][j] + &x[i][k] * &y[k][j]; } } } z };
+    let mut d1 = zeros(n1, n2); for i in 0..sd { d1[i][i] = bi(ks[i]); }
+    let mut d2 = zeros(n0, n1); for i in 0..r { d2[i][sd + f + i] = bi(es[i]); }
+    // unimodular U and its inverse from elementary shears  row_a += c row_b  (inverse: applied in reverse with -c)
+    let uni = |dim: usize, which: usize| -> (M, M) {
+        let (mut u, mut v) = (ident(dim), ident(dim));
+        if dim >= 2 { for &(w, a, b, c) in ops.iter() { if w == which { let (a, b) = (a % dim, b % dim); if a != b {
+            for j in 0..dim { let t = &u[b][j] * bi(c); u[a][j] = &u[a][j] + t; }            // U <- E U
+            for i in 0..dim { let t = &v[i][a] * bi(c); v[i][b] = &v[i][b] - t; }            // V <- V E^-1
+        } } } }
+        (u, v)
+    };
+    let ((u2, v2), (u1, v1), (u0, _v0)) = (uni(n2, 2), uni(n1, 1), uni(n0, 0));
+    let _ = u2;
+    let d1s = mul(&mul(&u1, &d1, n1, n1, n2), &v2, n1, n2, n2);      // U1 d1 U2^-1
+    let d2s = mul(&mul(&u0, &d2, n0, n0, n1), &v1, n0, n1, n1);      // U0 d2 U1^-1
+    let sp = |m: &M, a: usize, b: usize| SpMat::from_dense_data((a, b), m.iter().flatten().cloned().collect::<Vec<_>>());
+    let (a1, a2) = (sp(&d1s, n1, n2), sp(&d2s, n0, n1));
+    ob!((&a2 * &a1).is_zero(), "harness::d2.d1==0");
+    let (rank, tors, t) = HomologyCalc::calculate(a1.clone(), a2.clone(), true);
+    ob!(rank == f, "HomologyCalc::rank==n-r1-r2");
+    // invariant factors of diag(k): repeatedly (a, b) -> (gcd, lcm)
+    fn g(a: i64, b: i64) -> i64 { if b == 0 { a.abs() } else { g(b, a % b) } }
+    let mut inv: Vec<i64> = ks[..sd].to_vec();
+    for i in 0..inv.len() { for j in i + 1..inv.len() { let (x, y) = (inv[i], inv[j]); let gg = g(x, y); inv[i] = gg; inv[j] = x / gg * y; } }
+    let want: Vec<BigInt> = inv.iter().filter(|&&x| x > 1).map(|&x| bi(x)).collect();
+    let got: Vec<BigInt> = tors.iter().map(|x| x.abs()).collect();
+    ob!(got == want, "HomologyCalc::tors-are-the-non-unit-invariant-factors");
+    let t = t.unwrap();
+    let (p, q) = (t.forward_mat(), t.backward_mat());
+    let gdim = rank + tors.len();
+    ob!(p.shape() == (gdim, n1) && q.shape() == (n1, gdim), "HomologyCalc::trans::shapes");
+    ob!((&p * &q).into_dense() == SpMat::<BigInt>::id(gdim).into_dense(), "HomologyCalc::trans::p.q==I");
+    ob!((&a2 * &q).is_zero(), "HomologyCalc::trans::all-generators-are-cycles");
+    let pb = (&p * &a1).into_dense();
+    for j in 0..n2 { for i in 0..gdim {
+        if i < rank { ob!(pb[(i, j)].is_zero(), "HomologyCalc::trans::boundaries-die-in-the-free-part"); }
+        else { ob!((&pb[(i, j)] % &tors[i - rank]).is_zero(), "HomologyCalc::trans::boundaries-are-zero-modulo-the-torsion-orders"); }
+    } }
+    Ok(())
+}
+
+crate::harness_table!(HCALC: hcalc_small, hcalc_schur_small, hcalc_triang_small, hcalc_reducer_small, hcalc_decomp_small, hcalc_scrambled);
